@@ -204,7 +204,7 @@ pub fn run(ctx: &Ctx) -> Report {
     let scratch = Scratch::new("c04");
     let root = scratch.path.clone();
     let opts = RunOpts::default();
-    let sets = ctx.share(ctx.scale(480, 8000)) as u32;
+    let sets = ctx.share(ctx.scale(480, 24000)) as u32;
     let rep_cell = std::cell::RefCell::new(&mut rep);
     let failing: std::cell::RefCell<Option<(ConcCase, String, String)>> = std::cell::RefCell::new(None);
     let found = prop_search(ctx, 4, sets, 40, &gen_with(false, vec![0, 2], vec![1 << 40], 3, op_kinds, 1), |g, exploring| {
